@@ -96,7 +96,12 @@ fn run_case(seed: u64, index: u64, rep: &mut Report) {
     alloc::CONSUMER_PHASE_HOLDS.store(false, std::sync::atomic::Ordering::SeqCst);
     alloc::start_tracking();
     let sq_size = *rng.pick(&[2u32, 4, 16, 64]);
-    let ring = alloc::a10(|| Ring::config().with_submission_queue_size(sq_size).build());
+    let direct_n: u32 = if rng.chance(1, 2) { 8 } else { 0 };
+    let ring = alloc::a10(|| {
+        let cfg = Ring::config().with_submission_queue_size(sq_size);
+        let cfg = if direct_n > 0 { cfg.with_direct_descriptors(direct_n) } else { cfg };
+        cfg.build()
+    });
     let mut ring = match ring {
         Ok(r) => r,
         Err(e) => {
@@ -183,8 +188,109 @@ fn run_case(seed: u64, index: u64, rep: &mut Report) {
         }
     }
 
+    // Drive one operation to completion (descriptor-creating operations are never abandoned
+    // here: results delivered to abandoned operations are known finding D5).
+    fn drive(op: &mut Box<dyn DynOp>, ring: &mut Ring, cx: &mut Context<'_>) -> Option<Outcome> {
+        for _ in 0..400 {
+            if let Poll::Ready(o) = alloc::a10(|| op.poll(cx)) {
+                return Some(o);
+            }
+            let _ = alloc::consumer(|| ring.poll(Some(Duration::from_micros(200))));
+        }
+        None
+    }
+    let mut kept_fds: Vec<AsyncFd> = Vec::new();
+    let mut fd_watchdog = false;
+    let mut fd_ops = 0u64;
+
     for _ in 0..steps {
-        let x = rng.below(100);
+        let x = rng.below(112);
+        if x >= 100 {
+            // A descriptor-creating operation, driven to completion, or the end of a descriptor.
+            if x < 108 && kept_fds.len() < 6 {
+                let mut kinds = vec![Kind_::Socket, Kind_::Pipe];
+                if direct_n > 0 && kept_fds.iter().filter(|f| f.kind() == a10::fd::Kind::Direct).count() + 2 <= direct_n as usize {
+                    kinds.extend([Kind_::SocketDirect, Kind_::PipeDirect, Kind_::ToDirect]);
+                }
+                let kind = *rng.pick(&kinds);
+                let c = rng.below(chans.len() as u64) as usize;
+                let env = Env { sq: sq.clone(), fd: unsafe { &*chans[c].afd }, dfd: None, pool: None, direct_enabled: direct_n > 0 };
+                let mut op = alloc::a10(|| make(kind, &env, &mut rng));
+                alloc::a10(|| drop(env));
+                trace.push(format!("fdop:{kind:?}"));
+                fd_ops += 1;
+                match drive(&mut op, &mut ring, &mut cx) {
+                    Some(mut o) => {
+                        let want_direct = matches!(kind, Kind_::SocketDirect | Kind_::PipeDirect | Kind_::ToDirect);
+                        if let Err(e) = o.res {
+                            found.push(("C13", format!("real:descriptor-op-failed:{kind:?}"), format!("{kind:?} failed with errno {e} ({})", o.extra)));
+                        }
+                        for f in o.afds.drain(..) {
+                            if (f.kind() == a10::fd::Kind::Direct) != want_direct {
+                                found.push(("C07", "real:descriptor-wrong-kind".into(), format!("{kind:?} returned a descriptor of kind {:?}", f.kind())));
+                            }
+                            kept_fds.push(f);
+                        }
+                        alloc::a10(|| drop(o));
+                        // A fresh pipe must carry bytes from its write end to its read end.
+                        if matches!(kind, Kind_::Pipe | Kind_::PipeDirect) && kept_fds.len() >= 2 {
+                            let n = kept_fds.len();
+                            let (r, w) = (unsafe { &*std::ptr::from_ref(&kept_fds[n - 2]) }, unsafe { &*std::ptr::from_ref(&kept_fds[n - 1]) });
+                            let mut wop = alloc::a10(|| crate::ops::fut_op(w.write(b"ping".to_vec()), |r: std::io::Result<usize>| match r {
+                                Ok(n) => Outcome::ok(n as i64),
+                                Err(e) => Outcome::err(&e),
+                            }));
+                            let wres = drive(&mut wop, &mut ring, &mut cx);
+                            alloc::a10(|| drop(wop));
+                            let mut rop = alloc::a10(|| crate::ops::fut_op(r.read(Vec::with_capacity(16)), |r: std::io::Result<Vec<u8>>| match r {
+                                Ok(v) => Outcome::ok(v.len() as i64).with_data(v),
+                                Err(e) => Outcome::err(&e),
+                            }));
+                            let rres = drive(&mut rop, &mut ring, &mut cx);
+                            alloc::a10(|| drop(rop));
+                            match (wres, rres) {
+                                (Some(wo), Some(ro)) => {
+                                    if wo.res != Ok(4) || ro.data.as_deref() != Some(&b"ping"[..]) {
+                                        found.push(("C13", format!("real:new-pipe-does-not-carry-bytes:{kind:?}"), format!("write -> {}, read -> {} {:?}", wo.brief(), ro.brief(), ro.data)));
+                                    }
+                                    alloc::a10(|| drop((wo, ro)));
+                                }
+                                _ => fd_watchdog = true,
+                            }
+                        }
+                    }
+                    None => {
+                        fd_watchdog = true;
+                        std::mem::forget(op);
+                        continue;
+                    }
+                }
+                alloc::a10(|| drop(op));
+            } else if !kept_fds.is_empty() {
+                let n = rng.below(kept_fds.len() as u64) as usize;
+                let f = kept_fds.swap_remove(n);
+                if rng.chance(1, 2) {
+                    trace.push("fd-close".into());
+                    let mut op = alloc::a10(|| crate::ops::fut_op(f.close(), |r: std::io::Result<()>| match r {
+                        Ok(()) => Outcome::ok(0),
+                        Err(e) => Outcome::err(&e),
+                    }));
+                    match drive(&mut op, &mut ring, &mut cx) {
+                        Some(o) => {
+                            if o.res.is_err() {
+                                found.push(("C07", "real:close-failed".into(), format!("AsyncFd::close() -> {}", o.brief())));
+                            }
+                        }
+                        None => fd_watchdog = true,
+                    }
+                    alloc::a10(|| drop(op));
+                } else {
+                    trace.push("fd-drop".into());
+                    alloc::a10(|| drop(f));
+                }
+            }
+            continue;
+        }
         if x < 25 && slots.len() < 12 {
             // New operation.
             let c = rng.below(chans.len() as u64) as usize;
@@ -309,6 +415,48 @@ fn run_case(seed: u64, index: u64, rep: &mut Report) {
             found.push(("C02", "real:write-count-exceeds-bytes-delivered".into(), format!("channel {c}: resolved writes/sends claim {} bytes, the peer received {}", ch.claimed, ch.received)));
         }
     }
+    // Direct descriptor slots are conserved: with every direct descriptor of the history
+    // dropped, the whole table can be allocated again.
+    if direct_n > 0 && !fd_watchdog {
+        kept_fds.retain(|f| f.kind() != a10::fd::Kind::Direct || {
+            false
+        });
+        for _ in 0..4 {
+            let _ = alloc::consumer(|| ring.poll(Some(Duration::from_micros(100))));
+        }
+        let mut again: Vec<AsyncFd> = Vec::new();
+        let mut failed = None;
+        for i in 0..direct_n {
+            let env = Env { sq: sq.clone(), fd: unsafe { &*chans[0].afd }, dfd: None, pool: None, direct_enabled: true };
+            let mut op = alloc::a10(|| make(Kind_::SocketDirect, &env, &mut rng));
+            alloc::a10(|| drop(env));
+            match drive(&mut op, &mut ring, &mut cx) {
+                Some(mut o) => {
+                    if let Err(e) = o.res {
+                        failed = Some((i, e));
+                    }
+                    again.extend(o.afds.drain(..));
+                }
+                None => {
+                    fd_watchdog = true;
+                    std::mem::forget(op);
+                    break;
+                }
+            }
+            alloc::a10(|| drop(op));
+            if failed.is_some() {
+                break;
+            }
+        }
+        if let Some((i, e)) = failed {
+            found.push(("C07", "real:direct-slot-leak".into(), format!("with every direct descriptor of the history dropped only {i} of the {direct_n} slots of the table could be allocated again (errno {e}): dropped direct descriptors were not released")));
+        }
+        trace.push(format!("direct-table-refilled:{}", again.len()));
+        alloc::a10(|| drop(again));
+        for _ in 0..3 {
+            let _ = alloc::consumer(|| ring.poll(Some(Duration::from_micros(100))));
+        }
+    }
     // Teardown in a random order.
     let mut order: Vec<u8> = vec![0, 1, 2, 3, 4];
     rng.shuffle(&mut order);
@@ -347,6 +495,8 @@ fn run_case(seed: u64, index: u64, rep: &mut Report) {
             3 => {
                 trace.push("drop-results".into());
                 let k = std::mem::take(&mut kept);
+                alloc::a10(|| drop(k));
+                let k = std::mem::take(&mut kept_fds);
                 alloc::a10(|| drop(k));
                 let p = pool.take().unwrap();
                 alloc::a10(|| drop(p));
@@ -390,7 +540,11 @@ fn run_case(seed: u64, index: u64, rep: &mut Report) {
         found.push(("C06", "real:state-leak".into(), format!("{} block(s) allocated inside a10 (sizes {:?}) are still live after every operation, result, descriptor, queue handle and the Ring were dropped", leaks.len(), leaks.iter().map(|l| l.size).take(8).collect::<Vec<_>>())));
     }
     let fds_after = open_fds();
-    if fds_after != fds_before {
+    if fd_watchdog {
+        rep.count("realmix_descriptor_watchdog", 1);
+    }
+    rep.count("real_descriptor_ops", fd_ops);
+    if fds_after != fds_before && !fd_watchdog {
         found.push(("C07", "real:descriptor-count-changed".into(), format!("{fds_before} descriptors open before the history, {fds_after} after everything was dropped")));
     }
     alloc::CONSUMER_PHASE_HOLDS.store(true, std::sync::atomic::Ordering::SeqCst);
